@@ -351,32 +351,31 @@ Fixpoint ring_after (r : list (option msg)) (ops : list op) : list (option msg) 
   | _ :: t => ring_after r t
   end.
 
-(** Events broadcast after the join, up to the listener's removal. *)
-Fixpoint since (l : nat) (ops : list op) : list ev :=
-  match ops with
-  | [] => []
-  | ORemove k :: t => if Nat.eqb k l then [] else since l t
-  | o :: t => ev_of_op o ++ since l t
+(** The stream a listener [l] is entitled to, accumulated as the hub runs its ops: nothing
+    before its join; at its (first) join the live part of the history, oldest first; then every
+    event broadcast while it is registered. [v_ring] is the history as it stands. *)
+Record view := mkV { v_ring : list (option msg); v_es : list ev; v_joined : bool; v_reg : bool }.
+
+Definition view_step (l : nat) (v : view) (o : op) : view :=
+  match o with
+  | ODispatch m =>
+      mkV (ring_push (v_ring v) m) (if v_reg v then v_es v ++ [Stored m] else v_es v) (v_joined v) (v_reg v)
+  | ODelete m =>
+      mkV (ring_del (v_ring v) m) (if v_reg v then v_es v ++ [Deleted m] else v_es v) (v_joined v) (v_reg v)
+  | OAdd k =>
+      if Nat.eqb k l && negb (v_joined v)
+      then mkV (v_ring v) (map Stored (ring_live (v_ring v))) true true
+      else v
+  | ORemove k => if Nat.eqb k l then mkV (v_ring v) (v_es v) (v_joined v) false else v
+  | OSync _ => v
   end.
 
-(** The stream a listener [l] of kind [k] and filter [f] is entitled to, given the ops the
-    hub has run: the history at its join, then every later event, both through its filter. *)
-Fixpoint expected_from (r : list (option msg)) (l : nat) (ops : list op) : option (list ev) :=
-  match ops with
-  | [] => None
-  | OAdd k :: t =>
-      if Nat.eqb k l then Some (map Stored (ring_live r) ++ since l t)
-      else expected_from r l t
-  | ODispatch m :: t => expected_from (ring_push r m) l t
-  | ODelete m :: t => expected_from (ring_del r m) l t
-  | _ :: t => expected_from r l t
-  end.
+Definition view_of (n : nat) (l : nat) (ops : list op) : view :=
+  fold_left (view_step l) ops (mkV (ring_init n) [] false false).
 
+(** … through its filter. *)
 Definition expected (n : nat) (k : lkind) (f : str) (l : nat) (ops : list op) : list ev :=
-  match expected_from (ring_init n) l ops with
-  | None => []
-  | Some es => filter (wants k f) es
-  end.
+  filter (wants k f) (v_es (view_of n l ops)).
 
 (** * The driver-level reading used by the correspondence check
 
